@@ -847,6 +847,8 @@ impl<'a, H: HB> Explorer<'a, H> {
                 break;
             }
             depth += 1;
+            // at the last level of a depth-bounded run the successors are checked but not kept
+            let keep_children = max_depth.map_or(true, |d| depth < d);
             self.stats.levels.store(depth, AO::Relaxed);
             let next: Mutex<Vec<Node<H>>> = Mutex::new(vec![]);
             let idx = AtomicUsize::new(0);
@@ -916,7 +918,9 @@ impl<'a, H: HB> Explorer<'a, H> {
                                             if let Some(c) = &self.collect {
                                                 c.lock().unwrap().push(child.dup());
                                             }
-                                            mine.push(child);
+                                            if keep_children {
+                                                mine.push(child);
+                                            }
                                         } else if cfg.merge_check && needs_redisc(&key) {
                                             // merge soundness: the first re-discovered copy of a state must have
                                             // exactly the successors (operation, return, successor key) of the
